@@ -4,6 +4,7 @@ import Norad.Lemmas.SafePlan
 import Norad.Lemmas.Determined
 import Norad.Lemmas.LayerDir
 import Norad.Lemmas.PlanRuns
+import Norad.Lemmas.SaveTable
 /-!
 # C09 — a saved tree depends only on the font and stays inside the target
 
@@ -431,5 +432,37 @@ example : WellPlanned baseFont where
 example : (saveImpl cfgN baseFont outer target).1 = none ∧
     ((saveImpl cfgN baseFont outer target).2.map (·.1)).length = (expectedPaths baseFont target).length + 1 := by
   decide
+
+/-! ### source-level tie: the plan IS the (guard, step) table of `save_impl`, as the code says it NOW -/
+
+open C08.Source Generated.SaveOrder in
+/-- **The model's `plan` is exactly the regenerated table behind the wipe**: the rows of `fn save_impl` that follow the
+    `remove_dir_all` row, each executed iff all its guard atoms hold (`!self.font_info.is_empty()`, `!lib.is_empty()` on
+    the local lib with the dumped object libs inserted, `!self.groups.is_empty()`, ... `!self.images.is_empty()`), produce
+    the effect list `plan` - so the emptiness gates, "no layerinfo / images when empty" and the order of the theorems
+    above are statements about the gates the source has now. -/
+theorem source_plan_is_save_table {β : Type} (cfg : Cfg β) (f : AFont β) (d i : List (Path.P × β)) (t : APath)
+    (creator cr : Bool) :
+    (parseTable saveTable).map (fun rows =>
+      planRows { cfg, f, d, i, t, creator, cr } ((rows.dropWhile (!isWipe ·)).drop 1) { lib := none, fol := none })
+    = some (plan cfg f d i t) := by
+  have h : parseTable saveTable = some modelRows := saveTable_parses
+  rw [h]
+  have hdw : (modelRows.dropWhile (!isWipe ·)).drop 1 = modelPost := by decide
+  simp only [Option.map_some, hdw]
+  exact congrArg some (planRows_model { cfg, f, d, i, t, creator, cr })
+
+open C08.Source Generated.SaveOrder in
+/-- every optional part has a gate in the source, and it is the emptiness test of that part: the guard atoms of the
+    rows that write the optional files, read off the regenerated table -/
+theorem source_optional_gates :
+    (parseTable saveTable).map (fun rows => rows.filterMap fun r =>
+      if r.2 = .writeFontinfo ∨ r.2 = .writeLib ∨ r.2 = .writeGroups ∨ r.2 = .writeKerning ∨ r.2 = .writeFeatures ∨
+         r.2 = .writeData ∨ r.2 = .createImages ∨ r.2 = .writeImages then some (r.1.head?, r.2) else none) =
+    some [(some .infoNonEmpty, .writeFontinfo), (some .libNonEmpty, .writeLib), (some .groupsNonEmpty, .writeGroups),
+          (some .kerningNonEmpty, .writeKerning), (some .featuresNonEmpty, .writeFeatures),
+          (some .featuresNonEmpty, .writeFeatures), (some .dataNonEmpty, .writeData),
+          (some .imagesNonEmpty, .createImages), (some .imagesNonEmpty, .writeImages)] := by
+  rw [saveTable_parses]; decide
 
 end C09
